@@ -534,4 +534,392 @@ Proof.
       - intros j Hj. rewrite Hk8 by exact Hj. rewrite Hk5 by lia. apply Hlow3. exact Hj. }
     split; [exact MI8|]. split; [rewrite Hip8, Hq; reflexivity|]. split; [exact V8|]. split; [exact G8|exact SR8].
 Qed.
+
+(* ------------------------------------------------------------ the induction on the reference derivation *)
+Definition args_okP6 (sc : list text) (lv : list nat) (sg : store6) (rho : env6) (args : list expr6) (rs : list rval6)
+                     (sg' : store6) (rho' : env6) : Prop :=
+  forall f l n s l' n' s' code, Forall (fun x => wf6 x sc) args -> (cell_size (cells_of6 args) < f)%nat ->
+    hdr6 l sc s -> minv s ->
+    args_loop (compile_expression f) (cells_of6 args) l n s = ROk (l', n') s' -> fwd l' = fwd l ++ code ->
+    exec_args6 ob s' (len (fwd l)) code (len args) lv sg rho rs sg' rho'.
+
+Lemma statics6 sc args : Forall (fun x => wf6 x sc) args -> Forall (compile_static6 sc) args.
+Proof. intros H. eapply Forall_impl; [|exact H]. intros x Hx. apply static6. exact Hx. Qed.
+
+Lemma ref_evals6_len sc lv sg rho args rs sg' rho' : ref_evals6 bsem sc lv sg rho args rs sg' rho' -> length rs = length args.
+Proof. induction 1; cbn [length]; congruence. Qed.
+
+Lemma dyn_datum6 sc lv sg rho (e : expr6) d :
+  (forall f l tail, compile_expression (S f) l tail (cell_of6 e) =
+     (dom v <- maybe_put_cell_m d; ret (emit (emit (emit_op l OMovImmediate) v) VAcc))) ->
+  heap_datum d -> body_ok6 sc lv sg rho e (R6Base (RDatum d)) sg rho.
+Proof.
+  intros Heq Hd f l tail s l' s' code _ Hf Hh MI Hcomp Hfwd. destruct f as [|f]; [lia|].
+  rewrite Heq in Hcomp. destruct (maybe_put_cell_m_ok d s Hd MI) as (v & s1 & E & MI1 & X & R & V).
+  unfold bindM in Hcomp. rewrite E in Hcomp. unfold ret in Hcomp. injection Hcomp as <- <-.
+  rewrite fwd_emit3 in Hfwd. apply app_inv_head in Hfwd. subst code. apply exec6_movimm. exact V.
+Qed.
+
+Lemma dyn_store6 sc lv sg rho (e0 : expr6) x e r1 sg1 rho1 :
+  (wf6 e0 sc -> forall f l tail s, compile_expression (S f) l tail (cell_of6 e0) s =
+    (dom l1 <- compile_expression f l false (cell_of6 e);
+     dom sym_ref <- put_cell_m (CSym x);
+     dom operand <- location_operand (emit (emit_op l1 OMov) VAcc) sym_ref;
+     ret (emit (emit (emit_op (emit (emit (emit_op l1 OMov) VAcc) operand) OMovImmediate) VVoid) VAcc)) s) ->
+  (cell_size (cell_of6 e) < cell_size (cell_of6 e0))%nat ->
+  (wf6 e0 sc -> pindex x sc = None /\ wf6 e sc) ->
+  body_ok6 sc lv sg rho e r1 sg1 rho1 -> body_ok6 sc lv sg rho e0 (R6Base (RDatum CVoid)) sg1 (upd6 rho1 x r1).
+Proof.
+  intros Heq Hsz Hw IH f l tail s l' s' code Hwf Hf Hh MI Hcomp Hfwd. destruct f as [|f]; [lia|].
+  destruct (Hw Hwf) as [Hpx We]. rewrite (Heq Hwf) in Hcomp.
+  destruct (static6 e sc We f l false s ltac:(lia) Hh MI) as (l1 & s1 & c1 & E1 & F1 & S1 & MI1 & X1 & R1 & _).
+  destruct (put_sym_m_ok x s1 MI1) as (a & s2 & E2 & MI2 & X2 & R2 & A & C & Eb & Eg).
+  destruct (get_binding_ok a s2 MI2) as (k & s3 & E3 & MI3 & X3 & R3 & Eh & Es & B).
+  assert (Hh2 : hdr6 (emit (emit_op l1 OMov) VAcc) sc s2).
+  { eapply hdr6_same; [|eapply hdr6_ext; [|exact Hh]].
+    - eapply same_hdr_trans; [exact S1|repeat split].
+    - eapply cext_trans; eassumption. }
+  unfold bindM at 1 in Hcomp. rewrite E1 in Hcomp. unfold bindM at 1 in Hcomp. rewrite E2 in Hcomp.
+  unfold bindM at 1 in Hcomp. rewrite (location_global6 _ sc s2 a x Hh2 (mi_heap _ MI2) A C Hpx) in Hcomp.
+  unfold bindM at 1 in Hcomp. rewrite E3 in Hcomp. unfold ret in Hcomp. injection Hcomp as <- <-.
+  rewrite fwd_store, F1, <- app_assoc in Hfwd. apply app_inv_head in Hfwd. subst code.
+  apply (exec6_store ob s3 _ c1 a k x).
+  - apply (exec6_ext ob s3 s1); [eapply cext_trans; eassumption|]. exact (IH f l false s l1 s1 c1 We ltac:(lia) Hh MI E1 F1).
+  - rewrite Eh. exact A.
+  - rewrite Eh. exact C.
+  - exact B.
+Qed.
+
+(* (set! x e), x bound by the scope (slot i, location l): the location is overwritten *)
+Lemma dyn_setl6 sc lv sg rho x e r1 sg1 rho1 i l :
+  pindex x sc = Some i -> nth_error lv (N.to_nat i) = Some l -> (l < length sg1)%nat ->
+  body_ok6 sc lv sg rho e r1 sg1 rho1 ->
+  body_ok6 sc lv sg rho (WSet x e) (R6Base (RDatum CVoid)) (sset6 sg1 l r1) rho1.
+Proof.
+  intros Hp Hi Hl IH f l0 tail s l' s' code Hwf Hf Hh MI Hcomp Hfwd. destruct f as [|f]; [lia|].
+  destruct Hwf as (Hx & We). cbn [cell_of6] in *. cbn [cell_size] in Hf.
+  destruct (static6 e sc We f l0 false s ltac:(lia) Hh MI) as (l1 & s1 & c1 & E1 & F1 & S1 & MI1 & X1 & R1 & _).
+  destruct (compile_set_local sc x i (cell_of6 e) f l0 tail s l1 s1 c1 Hx Hp Hh E1 F1 S1 MI1 X1)
+    as (l2 & s2 & E2 & F2 & S2 & MI2 & X2 & _).
+  rewrite E2 in Hcomp. injection Hcomp as <- <-. rewrite F2 in Hfwd. apply app_inv_head in Hfwd. subst code.
+  apply (exec6_store_local ob s2 _ c1 i tail lv sg rho r1 sg1 rho1 l); [|exact Hi|exact Hl].
+  apply (exec6_ext ob s2 s1); [exact X2|]. exact (IH f l0 false s l1 s1 c1 We ltac:(lia) Hh MI E1 F1).
+Qed.
+
+Lemma dyn_if6 sc lv sg rho c a b rc sg1 rho1 r sg2 rho2 (eb : bool) :
+  body_ok6 sc lv sg rho c rc sg1 rho1 -> is_false6 rc = eb ->
+  (if eb then body_ok6 sc lv sg1 rho1 b r sg2 rho2 else body_ok6 sc lv sg1 rho1 a r sg2 rho2) ->
+  body_ok6 sc lv sg rho (WIf c a b) r sg2 rho2.
+Proof.
+  intros IHc Hrc IHx f l tail s l' s' code (Wc & Wa & Wb) Hf Hh MI Hcomp Hfwd. destruct f as [|f]; [lia|].
+  cbn [cell_of6] in *. cbn [cell_size] in Hf. rewrite compile_if3_eq in Hcomp.
+  destruct (static6 c sc Wc f l false s ltac:(lia) Hh MI) as (l1 & s1 & cc & E1 & F1 & S1 & MI1 & X1 & R1 & _).
+  set (l3 := emit (emit_op l1 OJnt) (VPtr CAFEBEEF)) in *.
+  assert (S3 : same_hdr l l3) by (eapply same_hdr_trans; [exact S1|repeat split]).
+  pose proof (hdr6_same _ _ _ _ S3 (hdr6_ext _ _ _ _ X1 Hh)) as Hh3.
+  destruct (static6 a sc Wa f l3 tail s1 ltac:(lia) Hh3 MI1) as (l4 & s2 & ca & E4 & F4 & S4 & MI2 & X2 & R2 & _).
+  destruct (if_layout l l1 l4 cc ca F1 F4) as [L6 F7].
+  set (l6 := emit (emit_op l4 OJmp) (VPtr CAFEBEEF)) in *.
+  set (l7 := bc_patch l6 (bc_len (emit_op l1 OJnt)) (VPtr (bc_len l6))) in *.
+  assert (S7 : same_hdr l l7).
+  { eapply same_hdr_trans; [exact S3|]. eapply same_hdr_trans; [exact S4|]. repeat split. }
+  assert (X12 : cext s s2) by (eapply cext_trans; eassumption).
+  pose proof (hdr6_same _ _ _ _ S7 (hdr6_ext _ _ _ _ X12 Hh)) as Hh7.
+  destruct (static6 b sc Wb f l7 tail s2 ltac:(lia) Hh7 MI2) as (l8 & s3 & cb & E8 & F8 & S8 & MI3 & X3 & R3 & _).
+  set (p := len (fwd l)) in *.
+  assert (L7 : len (fwd l7) = bc_len l6) by (rewrite F7, L6; lens; fold p; lia).
+  assert (L3 : len (fwd l3) = p + len cc + 2) by (unfold l3; rewrite fwd_emit, fwd_emit_op, F1; lens; fold p; lia).
+  assert (L8 : bc_len l8 = bc_len l6 + len cb) by (rewrite (bc_len_fwd l8), F8, len_app, L7; reflexivity).
+  unfold bindM at 1 in Hcomp. rewrite E1 in Hcomp. unfold bindM at 1 in Hcomp. fold l3 in Hcomp. rewrite E4 in Hcomp.
+  unfold bindM at 1 in Hcomp. fold l6 l7 in Hcomp. rewrite E8 in Hcomp. unfold ret in Hcomp. injection Hcomp as <- <-.
+  rewrite (if_final l8 l4 (fwd l ++ cc ++ [VOp OJnt; VPtr (bc_len l6)] ++ ca) cb) in Hfwd;
+    [|rewrite F8, F7, <- !app_assoc; reflexivity
+     |rewrite bc_len_fwd, fwd_emit_op, F4; lens; rewrite L3; lens; fold p; lia].
+  rewrite <- !app_assoc in Hfwd. apply app_inv_head in Hfwd. subst code.
+  assert (X13 : cext s1 s3) by (eapply cext_trans; eassumption).
+  apply (exec6_if ob s3 p cc ca cb _ _ tail lv sg rho rc sg1 rho1 r sg2 rho2 eb L6 L8).
+  - apply (exec6_ext ob s3 s1); [exact X13|]. exact (IHc f l false s l1 s1 cc Wc ltac:(lia) Hh MI E1 F1).
+  - exact Hrc.
+  - destruct eb.
+    + rewrite <- L7. exact (IHx f l7 tail s2 l8 s3 cb Wb ltac:(lia) Hh7 MI2 E8 F8).
+    + rewrite <- L3. apply (exec6_ext ob s3 s2); [exact X3|]. exact (IHx f l3 tail s1 l4 s2 ca Wa ltac:(lia) Hh3 MI1 E4 F4).
+Qed.
+
+Lemma dyn_if16 sc lv sg rho c a rc sg1 rho1 r sg2 rho2 (eb : bool) :
+  body_ok6 sc lv sg rho c rc sg1 rho1 -> is_false6 rc = eb ->
+  (if eb then r = R6Base (RDatum CVoid) /\ sg2 = sg1 /\ rho2 = rho1 else body_ok6 sc lv sg1 rho1 a r sg2 rho2) ->
+  body_ok6 sc lv sg rho (WIf1 c a) r sg2 rho2.
+Proof.
+  intros IHc Hrc IHx f l tail s l' s' code (Wc & Wa) Hf Hh MI Hcomp Hfwd. destruct f as [|f]; [lia|].
+  cbn [cell_of6] in *. cbn [cell_size] in Hf. rewrite compile_if2_eq in Hcomp.
+  destruct (static6 c sc Wc f l false s ltac:(lia) Hh MI) as (l1 & s1 & cc & E1 & F1 & S1 & MI1 & X1 & R1 & _).
+  set (l3 := emit (emit_op l1 OJnt) (VPtr CAFEBEEF)) in *.
+  assert (S3 : same_hdr l l3) by (eapply same_hdr_trans; [exact S1|repeat split]).
+  pose proof (hdr6_same _ _ _ _ S3 (hdr6_ext _ _ _ _ X1 Hh)) as Hh3.
+  destruct (static6 a sc Wa f l3 tail s1 ltac:(lia) Hh3 MI1) as (l4 & s2 & ca & E4 & F4 & S4 & MI2 & X2 & R2 & _).
+  destruct (if_layout l l1 l4 cc ca F1 F4) as [L6 F7].
+  set (l6 := emit (emit_op l4 OJmp) (VPtr CAFEBEEF)) in *.
+  set (l7 := bc_patch l6 (bc_len (emit_op l1 OJnt)) (VPtr (bc_len l6))) in *.
+  set (cb := [VOp OMovImmediate; VVoid; VAcc]).
+  set (l8 := emit (emit (emit_op l7 OMovImmediate) VVoid) VAcc) in *.
+  assert (F8 : fwd l8 = fwd l7 ++ cb) by apply fwd_emit3.
+  set (p := len (fwd l)) in *.
+  assert (L7 : len (fwd l7) = bc_len l6) by (rewrite F7, L6; lens; fold p; lia).
+  assert (L3 : len (fwd l3) = p + len cc + 2) by (unfold l3; rewrite fwd_emit, fwd_emit_op, F1; lens; fold p; lia).
+  assert (L8 : bc_len l8 = bc_len l6 + len cb) by (rewrite (bc_len_fwd l8), F8, len_app, L7; reflexivity).
+  unfold bindM at 1 in Hcomp. rewrite E1 in Hcomp. unfold bindM at 1 in Hcomp. fold l3 in Hcomp. rewrite E4 in Hcomp.
+  fold l6 l7 l8 in Hcomp. unfold ret in Hcomp. injection Hcomp as <- <-.
+  rewrite (if_final l8 l4 (fwd l ++ cc ++ [VOp OJnt; VPtr (bc_len l6)] ++ ca) cb) in Hfwd;
+    [|rewrite F8, F7, <- !app_assoc; reflexivity
+     |rewrite bc_len_fwd, fwd_emit_op, F4; lens; rewrite L3; lens; fold p; lia].
+  rewrite <- !app_assoc in Hfwd. apply app_inv_head in Hfwd. subst code.
+  destruct eb.
+  - destruct IHx as (-> & -> & ->).
+    apply (exec6_if ob s2 p cc ca cb _ _ tail lv sg rho rc sg1 rho1 (R6Base (RDatum CVoid)) sg1 rho1 true L6 L8).
+    + apply (exec6_ext ob s2 s1); [exact X2|]. exact (IHc f l false s l1 s1 cc Wc ltac:(lia) Hh MI E1 F1).
+    + exact Hrc.
+    + cbv iota. apply exec6_movimm. apply vrep_void.
+  - apply (exec6_if ob s2 p cc ca cb _ _ tail lv sg rho rc sg1 rho1 r sg2 rho2 false L6 L8).
+    + apply (exec6_ext ob s2 s1); [exact X2|]. exact (IHc f l false s l1 s1 cc Wc ltac:(lia) Hh MI E1 F1).
+    + exact Hrc.
+    + cbv iota. rewrite <- L3. exact (IHx f l3 tail s1 l4 s2 ca Wa ltac:(lia) Hh3 MI1 E4 F4).
+Qed.
+
+Lemma dyn_local6 sc lv sg rho x i l r : pindex x sc = Some i -> nth_error lv (N.to_nat i) = Some l ->
+  nth_error sg l = Some r -> body_ok6 sc lv sg rho (WVar x) r sg rho.
+Proof.
+  intros Hpi Hn Hl f l0 tail s l' s' code Hx Hf Hh MI Hcomp Hfwd. destruct f as [|f]; [lia|].
+  cbn [wf6] in Hx. cbn [cell_of6] in Hcomp. rewrite (compile_var_eq _ _ _ _ _ Hx) in Hcomp.
+  destruct (put_sym_m_ok x s MI) as (a & s1 & E1 & MI1 & X1 & R1 & A & C & Eb & Eg).
+  unfold bindM at 1 in Hcomp. rewrite E1 in Hcomp. unfold bindM at 1 in Hcomp.
+  rewrite (location_local6 l0 sc s1 a x i (hdr6_ext _ _ _ _ X1 Hh) (mi_heap _ MI1) A C Hpi) in Hcomp.
+  unfold ret in Hcomp. injection Hcomp as <- <-.
+  rewrite fwd_emit3 in Hfwd. apply app_inv_head in Hfwd. subst code. eapply exec6_load_local; eassumption.
+Qed.
+
+Lemma dyn_global6 sc lv sg rho x r : pindex x sc = None -> rho x = Some r -> r <> R6Base (RDatum CUndef) ->
+  body_ok6 sc lv sg rho (WVar x) r sg rho.
+Proof.
+  intros Hpi Hr Hu f l tail s l' s' code Hx Hf Hh MI Hcomp Hfwd. destruct f as [|f]; [lia|].
+  cbn [wf6] in Hx. cbn [cell_of6] in Hcomp. rewrite (compile_var_eq _ _ _ _ _ Hx) in Hcomp.
+  destruct (put_sym_m_ok x s MI) as (a & s1 & E1 & MI1 & X1 & R1 & A & C & Eb & Eg).
+  destruct (get_binding_ok a s1 MI1) as (k & s2 & E2 & MI2 & X2 & R2 & Eh & Es & B).
+  unfold bindM at 1 in Hcomp. rewrite E1 in Hcomp. unfold bindM at 1 in Hcomp.
+  rewrite (location_global6 l sc s1 a x (hdr6_ext _ _ _ _ X1 Hh) (mi_heap _ MI1) A C Hpi) in Hcomp.
+  unfold bindM at 1 in Hcomp. rewrite E2 in Hcomp. unfold ret in Hcomp. injection Hcomp as <- <-.
+  rewrite fwd_emit3 in Hfwd. apply app_inv_head in Hfwd. subst code.
+  apply (exec6_load_global ob s2 _ a k x); auto; rewrite Eh; assumption.
+Qed.
+
+Lemma dyn_lam6 sc lv sg rho ps fs bodies clocs :
+  Forall2 (fun x l => exists i, pindex x sc = Some i /\ nth_error lv (N.to_nat i) = Some l) (capnames6 sc fs) clocs ->
+  body_ok6 sc lv sg rho (WLam ps fs bodies) (R6Clo ps (capnames6 sc fs) bodies clocs) sg rho.
+Proof.
+  intros Fv f l tail s l' s' code Hwf Hf Hh MI Hcomp Hfwd.
+  pose proof Hwf as Hwf'. apply wf6_lam in Hwf'. destruct Hwf' as (Hne & _ & _ & _ & _ & Wb).
+  cbn [cell_of6] in *.
+  destruct (lam_static6 sc ps fs bodies Hwf (statics6 _ bodies Wb) f l tail s Hf Hh MI)
+    as (l2 & s2 & lamp & lamF & caps & cb & f' & lam2 & s3 & lam3 & s4 & E & F & _ & MI2 & X2 & _ & _ &
+        Hlam & Hem & Fa & Fc & Hbc & Hf' & Hh2 & MI3 & Ecomp & F2 & F3 & X4).
+  rewrite E in Hcomp. injection Hcomp as <- <-.
+  rewrite F in Hfwd. apply app_inv_head in Hfwd. subst code.
+  apply (exec6_lam s2 _ lamp lamF caps sc ps (capnames6 sc fs) bodies tail lv sg rho clocs Hlam Hem Fa Fc); [|exact Fv].
+  exists lamF, caps, cb, f', lam2, s3, lam3, s4.
+  split; [exact Hlam|]. split; [exact Hem|]. split; [exact Fa|].
+  split.
+  { clear -Fc. induction Fc as [|e x caps cs (_ & k & Hk & _) _ IH]; constructor; [exists k; exact Hk|exact IH]. }
+  split; [eapply Forall2_length6; exact Fc|]. split; [exact Hbc|]. split; [exact Hne|]. split; [exact Hf'|]. split; [exact Wb|].
+  split; [exact Hh2|]. split; [exact MI3|]. split; [exact Ecomp|]. split; [exact F2|]. split; [exact F3|exact X4].
+Qed.
+
+(* the shape of a compiled application *)
+Lemma app_shape6 sc f0 args f l (tail : bool) s l' s' code :
+  wf6 (WApp f0 args) sc -> (cell_size (cell_of6 (WApp f0 args)) < f)%nat -> hdr6 l sc s -> minv s ->
+  compile_expression f l tail (cell_of6 (WApp f0 args)) s = ROk l' s' -> fwd l' = fwd l ++ code ->
+  exists f1 l1 s1 ca l2 l3 cf,
+    wf6 f0 sc /\ Forall (fun x => wf6 x sc) args /\
+    (cell_size (cells_of6 args) < f1)%nat /\ (cell_size (cell_of6 f0) < f1)%nat /\
+    args_loop (compile_expression f1) (cells_of6 args) l 0 s = ROk (l1, len args) s1 /\ fwd l1 = fwd l ++ ca /\
+    hdr6 l2 sc s1 /\ minv s1 /\ len (fwd l2) = len (fwd l) + len ca + 2 /\
+    compile_expression f1 l2 false (cell_of6 f0) s1 = ROk l3 s' /\ fwd l3 = fwd l2 ++ cf /\ cext s1 s' /\
+    code = ca ++ [VOp OPushImmediate; VArgc (len args)] ++ cf ++ [VOp (if tail then OTCallAcc else OCallAcc)].
+Proof.
+  intros Hwf Hf Hh MI Hcomp Hfwd. destruct f as [|f]; [cbn in Hf; lia|].
+  apply wf6_app in Hwf as (Hsp & Wf & Wargs).
+  cbn [cell_of6] in *. fold (cells_of6 args) in *. cbn [cell_size] in Hf.
+  rewrite compile_application_eq in Hcomp by exact Hsp.
+  destruct (args_static6 sc args (statics6 sc args Wargs) f l 0 s ltac:(lia) Hh MI)
+    as (l1 & s1 & ca & E1 & F1 & S1 & MI1 & X1 & R1 & _).
+  rewrite N.add_0_l in E1.
+  set (l2 := emit (emit_op l1 OPushImmediate) (VArgc (len args))) in *.
+  assert (S2 : same_hdr l l2) by (eapply same_hdr_trans; [exact S1|repeat split]).
+  pose proof (hdr6_same _ _ _ _ S2 (hdr6_ext _ _ _ _ X1 Hh)) as Hh2.
+  destruct (static6 f0 sc Wf f l2 false s1 ltac:(lia) Hh2 MI1) as (l3 & s2 & cf & E3 & F3 & S3 & MI2 & X2 & R2 & _).
+  unfold bindM at 1 in Hcomp. rewrite E1 in Hcomp. cbv beta iota in Hcomp. unfold bindM at 1 in Hcomp.
+  fold l2 in Hcomp. rewrite E3 in Hcomp. unfold ret in Hcomp. injection Hcomp as <- <-.
+  rewrite fwd_emit_op, F3 in Hfwd. unfold l2 in Hfwd. rewrite fwd_emit, fwd_emit_op, F1, <- !app_assoc in Hfwd.
+  apply app_inv_head in Hfwd. subst code.
+  exists f, l1, s1, ca, l2, l3, cf.
+  split; [exact Wf|]. split; [exact Wargs|]. split; [lia|]. split; [lia|]. split; [exact E1|]. split; [exact F1|].
+  split; [exact Hh2|]. split; [exact MI1|].
+  split; [unfold l2; rewrite fwd_emit, fwd_emit_op, F1; lens; lia|].
+  split; [exact E3|]. split; [exact F3|]. split; [exact X2|reflexivity].
+Qed.
+
+Lemma dyn_args_nil6 sc lv sg rho : args_okP6 sc lv sg rho [] [] sg rho.
+Proof.
+  intros f l n s l' n' s' code _ _ _ _ Hcomp Hfwd.
+  cbn [cells_of6 map fold_right args_loop] in Hcomp. unfold ret in Hcomp. injection Hcomp as <- _ <-.
+  rewrite <- (app_nil_r (fwd l)) in Hfwd at 1. apply app_inv_head in Hfwd. subst code.
+  apply exec_args6_nil.
+Qed.
+
+Lemma dyn_args_cons6 sc lv sg rho x r sg1 rho1 xs rs sg2 rho2 :
+  body_ok6 sc lv sg rho x r sg1 rho1 -> args_okP6 sc lv sg1 rho1 xs rs sg2 rho2 ->
+  args_okP6 sc lv sg rho (x :: xs) (r :: rs) sg2 rho2.
+Proof.
+  intros IHx IHr f l n s l' n' s' code Wall Hf Hh MI Hcomp Hfwd.
+  inversion Wall as [|x' xs' Wx Wr]; subst.
+  destruct (cells6_size x xs) as [Sx Sr].
+  change (cells_of6 (x :: xs)) with (CPair (cell_of6 x) (cells_of6 xs)) in *. cbn [args_loop] in Hcomp.
+  destruct (static6 x sc Wx f l false s ltac:(lia) Hh MI) as (l1 & s1 & cx & E1 & F1 & S1 & MI1 & X1 & R1 & _).
+  assert (S1' : same_hdr l (emit_op l1 OPushAcc)) by (eapply same_hdr_trans; [exact S1|repeat split]).
+  pose proof (hdr6_same _ _ _ _ S1' (hdr6_ext _ _ _ _ X1 Hh)) as Hh1.
+  destruct (args_static6 sc xs (statics6 sc xs Wr) f (emit_op l1 OPushAcc) (n + 1) s1 ltac:(lia) Hh1 MI1)
+    as (l2 & s2 & cr & E2 & F2 & S2 & MI2 & X2 & R2 & _).
+  unfold bindM at 1 in Hcomp. rewrite E1 in Hcomp. rewrite E2 in Hcomp. injection Hcomp as <- _ <-.
+  rewrite F2, fwd_emit_op, F1, <- !app_assoc in Hfwd. apply app_inv_head in Hfwd. subst code.
+  rewrite len_cons.
+  apply (exec_args6_cons ob s2 _ cx cr (len xs) lv sg rho r sg1 rho1 rs sg2 rho2).
+  - apply (exec6_ext ob s2 s1); [exact X2|]. exact (IHx f l false s l1 s1 cx Wx ltac:(lia) Hh MI E1 F1).
+  - pose proof (IHr f (emit_op l1 OPushAcc) (n + 1) s1 l2 _ s2 cr Wr ltac:(lia) Hh1 MI1 E2 F2) as H.
+    rewrite fwd_emit_op, F1 in H. replace (len ((fwd l ++ cx) ++ [VOp OPushAcc])) with (len (fwd l) + len cx + 1) in H by (lens; lia).
+    exact H.
+Qed.
+
+(* the body loop: the first expression of a sequence *)
+Lemma compile_bodies_cons6 f l x r :
+  compile_bodies6 f l (x :: r) =
+  (dom lam' <- compile_expression f l (match r with [] => true | _ => false end) x; compile_bodies6 f lam' r).
+Proof. reflexivity. Qed.
+
+Lemma dyn_seq_cons6 sc lv sg rho x r sg1 rho1 xs rs sg2 rho2 :
+  body_ok6 sc lv sg rho x r sg1 rho1 -> ref_evals6 bsem sc lv sg1 rho1 xs rs sg2 rho2 ->
+  (forall pre r', rs = pre ++ [r'] -> seq_ok6 sc lv sg1 rho1 xs r' sg2 rho2) ->
+  forall pre r', r :: rs = pre ++ [r'] -> seq_ok6 sc lv sg rho (x :: xs) r' sg2 rho2.
+Proof.
+  intros IHx HR IHr pre r' Hpre f l s l' s' code Wall Hf Hh MI Hcomp Hfwd.
+  inversion Wall as [|x' xs' Wx Wr]; subst x' xs'.
+  destruct (cells6_size x xs) as [Sx Sr].
+  pose proof (ref_evals6_len _ _ _ _ _ _ _ _ HR) as Hlen.
+  cbn [map] in Hcomp. rewrite compile_bodies_cons6 in Hcomp.
+  destruct (static6 x sc Wx f l (match map cell_of6 xs with [] => true | _ => false end) s ltac:(lia) Hh MI)
+    as (l1 & s1 & cx & E1 & F1 & S1 & MI1 & X1 & R1 & _).
+  pose proof (hdr6_same _ _ _ _ S1 (hdr6_ext _ _ _ _ X1 Hh)) as Hh1.
+  destruct (bodies_static6 sc xs (statics6 sc xs Wr) f l1 s1 ltac:(lia) Hh1 MI1)
+    as (l2 & s2 & cr & E2 & F2 & S2 & MI2 & X2 & R2 & _).
+  unfold bindM at 1 in Hcomp. rewrite E1, E2 in Hcomp. injection Hcomp as <- <-.
+  rewrite F2, F1, <- app_assoc in Hfwd. apply app_inv_head in Hfwd. subst code.
+  destruct xs as [|y ys].
+  - (* x is the last expression: tail position *)
+    inversion HR; subst.
+    destruct pre as [|p0 pre']; [|destruct pre'; cbn [app] in Hpre; congruence].
+    cbn [app] in Hpre. injection Hpre as <-.
+    cbn [map compile_bodies6] in E2. unfold ret in E2. injection E2 as <- <-.
+    assert (Hcr : cr = []) by (rewrite <- (app_nil_r (fwd l1)) in F2 at 1; apply app_inv_head in F2; auto).
+    subst cr. rewrite app_nil_r.
+    exact (IHx f l true s l1 s1 cx Wx ltac:(lia) Hh MI E1 F1).
+  - (* x is evaluated for effect, in non-tail position *)
+    destruct rs as [|r1 rs']; [discriminate|].
+    destruct pre as [|p0 pre']; [cbn [app] in Hpre; congruence|].
+    cbn [app] in Hpre. injection Hpre as <- Hrs.
+    apply (exec6_seq s2 _ cx cr lv sg rho r sg1 rho1 r' sg2 rho2).
+    + apply (exec6_ext ob s2 s1); [exact X2|]. exact (IHx f l false s l1 s1 cx Wx ltac:(lia) Hh MI E1 F1).
+    + pose proof (IHr pre' r' Hrs f l1 s1 l2 s2 cr Wr ltac:(lia) Hh1 MI1 E2 F2) as H.
+      rewrite F1, len_app in H. exact H.
+Qed.
+
+(* the predicate of the induction for LISTS of expressions: a list is evaluated as the operands of
+   an application (operand loop) or as the body of a closure (body loop) *)
+Definition evals_okP6 (sc : list text) (lv : list nat) (sg : store6) (rho : env6) (xs : list expr6) (rs : list rval6)
+                      (sg' : store6) (rho' : env6) : Prop :=
+  args_okP6 sc lv sg rho xs rs sg' rho' /\ (forall pre r, rs = pre ++ [r] -> seq_ok6 sc lv sg rho xs r sg' rho').
+
+Section Main6.
+Hypothesis Hb : forall b, builtin_ok ob bsem b.
+Hypothesis He : forall b, builtin_envs ob bsem b.
+
+Lemma dyn_app_builtin6 sc lv sg rho f0 args rbs sg1 rho1 b sg2 rho2 r :
+  args_okP6 sc lv sg rho args (map R6Base rbs) sg1 rho1 -> body_ok6 sc lv sg1 rho1 f0 (R6Base (RBuiltin b)) sg2 rho2 ->
+  bsem b rbs = Some r -> body_ok6 sc lv sg rho (WApp f0 args) (R6Base r) sg2 rho2.
+Proof.
+  intros IHa IHf Hsem f l tail s l' s' code Hwf Hf Hh MI Hcomp Hfwd.
+  destruct (app_shape6 sc f0 args f l tail s l' s' code Hwf Hf Hh MI Hcomp Hfwd)
+    as (f1 & l1 & s1 & ca & l2 & l3 & cf & Wf & Wargs & Hf1 & Hf2 & E1 & F1 & Hh2 & MI1 & L2 & E3 & F3 & X2 & ->).
+  apply (exec6_app_builtin ob bsem s' _ ca cf (len args) tail lv sg rho rbs sg1 rho1 b sg2 rho2 r Hb He).
+  - apply (exec_args6_ext ob s' s1); [exact X2|]. exact (IHa f1 l 0 s l1 _ s1 ca Wargs Hf1 Hh MI E1 F1).
+  - rewrite <- L2. exact (IHf f1 l2 false s1 l3 s' cf Wf Hf2 Hh2 MI1 E3 F3).
+  - exact Hsem.
+Qed.
+
+Lemma dyn_app_closure6 sc lv sg rho f0 args rs sg1 rho1 ps cs bodies clocs sg2 rho2 r sg3 rho3 :
+  length rs = length args ->
+  args_okP6 sc lv sg rho args rs sg1 rho1 -> body_ok6 sc lv sg1 rho1 f0 (R6Clo ps cs bodies clocs) sg2 rho2 ->
+  length rs = length ps ->
+  seq_ok6 (ps ++ cs) (seq (length sg2) (length rs) ++ clocs) (sg2 ++ rs) rho2 bodies r sg3 rho3 ->
+  body_ok6 sc lv sg rho (WApp f0 args) r sg3 rho3.
+Proof.
+  intros Hla IHa IHf Hlrs IHb f l tail s l' s' code Hwf Hf Hh MI Hcomp Hfwd.
+  destruct (app_shape6 sc f0 args f l tail s l' s' code Hwf Hf Hh MI Hcomp Hfwd)
+    as (f1 & l1 & s1 & ca & l2 & l3 & cf & Wf & Wargs & Hf1 & Hf2 & E1 & F1 & Hh2 & MI1 & L2 & E3 & F3 & X2 & ->).
+  apply (exec6_app_closure s' _ ca cf (len args) tail lv sg rho rs sg1 rho1 ps cs bodies clocs sg2 rho2 r sg3 rho3).
+  - apply (exec_args6_ext ob s' s1); [exact X2|]. exact (IHa f1 l 0 s l1 _ s1 ca Wargs Hf1 Hh MI E1 F1).
+  - rewrite <- L2. exact (IHf f1 l2 false s1 l3 s' cf Wf Hf2 Hh2 MI1 E3 F3).
+  - exact Hlrs.
+  - unfold len. rewrite <- Hla, Hlrs. reflexivity.
+  - exact IHb.
+Qed.
+
+(* THE THEOREM: for every reference derivation of e, every successful compilation of e into a
+   lambda under construction whose environment map binds sc produces code that computes the
+   reference value and the reference store, in the sense of exec6 *)
+Theorem compile_correct6 : forall sc lv sg rho e r sg' rho', ref_eval6 bsem sc lv sg rho e r sg' rho' ->
+  body_ok6 sc lv sg rho e r sg' rho'.
+Proof.
+  apply (ref_eval6_min bsem body_ok6 evals_okP6).
+  - intros sc lv sg rho c f l tail s l' s' code Hwf. pose proof Hwf as [Hs Hd]. revert f l tail s l' s' code Hwf.
+    apply (dyn_datum6 sc lv sg rho (WConst c) c); [intros; apply compile_const_eq; exact Hs|exact Hd].
+  - intros sc lv sg rho d f l tail s l' s' code Hwf. pose proof Hwf as Hd. cbn [wf6] in Hd. revert f l tail s l' s' code Hwf.
+    apply (dyn_datum6 sc lv sg rho (WQuote d) d); [intros; apply compile_quote_form|exact Hd].
+  - intros sc lv sg rho x i l r Hp Hn Hl. apply (dyn_local6 sc lv sg rho x i l r Hp Hn Hl).
+  - intros sc lv sg rho x r Hp Hr Hu. apply dyn_global6; assumption.
+  - intros sc lv sg rho c a b rc sg1 rho1 r sg2 rho2 _ IHc Hrc _ IHa.
+    apply (dyn_if6 sc lv sg rho c a b rc sg1 rho1 r sg2 rho2 false IHc Hrc IHa).
+  - intros sc lv sg rho c a b rc sg1 rho1 r sg2 rho2 _ IHc Hrc _ IHb.
+    apply (dyn_if6 sc lv sg rho c a b rc sg1 rho1 r sg2 rho2 true IHc Hrc IHb).
+  - intros sc lv sg rho c a rc sg1 rho1 r sg2 rho2 _ IHc Hrc _ IHa.
+    apply (dyn_if16 sc lv sg rho c a rc sg1 rho1 r sg2 rho2 false IHc Hrc IHa).
+  - intros sc lv sg rho c a rc sg1 rho1 _ IHc Hrc.
+    apply (dyn_if16 sc lv sg rho c a rc sg1 rho1 _ sg1 rho1 true IHc Hrc). repeat split; reflexivity.
+  - intros sc lv sg rho x e r sg1 rho1 _ IH. apply (dyn_store6 sc lv sg rho (WDefine x e) x e r sg1 rho1); [| | |exact IH].
+    + intros (Hx & _ & _) f l tail s. apply compile_define_eq. exact Hx.
+    + cbn [cell_of6 cell_size]. lia.
+    + intros (_ & Hp & We). split; assumption.
+  - intros sc lv sg rho x e r sg1 rho1 old Hp _ IH _. apply (dyn_store6 sc lv sg rho (WSet x e) x e r sg1 rho1); [| | |exact IH].
+    + intros (Hx & _) f l tail s. apply compile_set_eq. exact Hx.
+    + cbn [cell_of6 cell_size]. lia.
+    + intros (_ & We). split; assumption.
+  - intros sc lv sg rho x e r sg1 rho1 i l Hp Hn _ IH Hl. exact (dyn_setl6 sc lv sg rho x e r sg1 rho1 i l Hp Hn Hl IH).
+  - intros sc lv sg rho ps fs bodies clocs Fv. apply dyn_lam6. exact Fv.
+  - intros sc lv sg rho f0 args rbs sg1 rho1 b sg2 rho2 r _ IHa _ IHf Hsem.
+    exact (dyn_app_builtin6 sc lv sg rho f0 args rbs sg1 rho1 b sg2 rho2 r (proj1 IHa) IHf Hsem).
+  - intros sc lv sg rho f0 args rs sg1 rho1 ps cs bodies clocs sg2 rho2 vs pre r sg3 rho3 HRa IHa _ IHf Hlrs _ IHb Hvs.
+    exact (dyn_app_closure6 sc lv sg rho f0 args rs sg1 rho1 ps cs bodies clocs sg2 rho2 r sg3 rho3
+             (ref_evals6_len _ _ _ _ _ _ _ _ HRa) (proj1 IHa) IHf Hlrs (proj2 IHb pre r Hvs)).
+  - intros sc lv sg rho. split; [apply dyn_args_nil6|]. intros pre r H. destruct pre; discriminate.
+  - intros sc lv sg rho x r sg1 rho1 xs rs sg2 rho2 _ IHx HRr IHr. split.
+    + exact (dyn_args_cons6 sc lv sg rho x r sg1 rho1 xs rs sg2 rho2 IHx (proj1 IHr)).
+    + exact (dyn_seq_cons6 sc lv sg rho x r sg1 rho1 xs rs sg2 rho2 IHx HRr (proj2 IHr)).
+Qed.
+End Main6.
 End Run6.
